@@ -352,6 +352,12 @@ func checkC08(c *ctx) {
 					ac := genAut(c, terms)
 					loS, lo, loD := genBound(c, terms, false)
 					hiS, hi, hiD := genBound(c, terms, true)
+					if lo == nil && c.R.Chance(8) && (len(terms) == 0 || terms[0] != "") {
+						// [-, ""): an empty, non-nil end key; nothing lies below the empty key.  (Only
+						// for dictionaries without the empty term: vellum hands out keys it is
+						// positioned on without comparing them with the end key - DESIGN.md 0.)
+						hiS, hi, hiD = sx.L(sx.S("")), []byte{}, `"" (empty, non-nil: nothing lies below it)`
+					}
 					if lo != nil && hi != nil && strings.Compare(string(lo), string(hi)) >= 0 {
 						hiS, hi, hiD = sx.L(), nil, "absent"
 					}
